@@ -22,4 +22,74 @@ def checkAll {α : Type} (checkFile : α → List String) (paths : List α) (job
   if paths.length ≤ 1 ∨ jobs ≤ 1 then checkAllSeq checkFile paths
   else ((executorMap checkFile paths sched).filterMap id).flatten
 
+/-! ## exit status, stderr, and what an escaping exception does to the output (for C01)
+
+`i18nspector` ends in `cli.main()`; nothing calls `sys.exit`, so the exit status is 0 unless an exception reaches the top
+(traceback on stderr, status 1) or `argparse` rejects the command line (`ap.error`: usage message on stderr, status 2). -/
+
+/-- one `check_file(path)` call: the lines it printed, and whether an exception left it -/
+structure FileRun where
+  lines : List String
+  uncaught : Bool
+
+/-- the process as the shell sees it -/
+structure Proc where
+  stdout : List String
+  /-- stderr is non-empty (traceback or usage error) -/
+  stderr : Bool
+  rc : Nat
+  deriving DecidableEq, Repr
+
+/-- `for path in paths: check_file(path)`: the first exception ends the loop; what was printed before it stays printed -/
+def runSeq {α : Type} (checkFile : α → FileRun) : List α → List String × Bool
+  | [] => ([], false)
+  | p :: ps =>
+    let r := checkFile p
+    if r.uncaught then (r.lines, true)
+    else
+      let rest := runSeq checkFile ps
+      (r.lines ++ rest.1, rest.2)
+
+/-- `for s in executor.map(check_file_s, paths): sys.stdout.write(s)`: results are consumed in submission order; an exception
+    raised in a worker is re-raised by the iterator at that position, and what `check_file_s` had captured for that file is
+    lost with the worker's `StringIO` -/
+def runPar {α : Type} (checkFile : α → FileRun) : List α → List String × Bool
+  | [] => ([], false)
+  | p :: ps =>
+    let r := checkFile p
+    if r.uncaught then ([], true)
+    else
+      let rest := runPar checkFile ps
+      (r.lines ++ rest.1, rest.2)
+
+/-- how `main()` leaves `-l LANG`: absent, accepted (`parse_language` + `fix_codes` succeed), or rejected -/
+inductive LangOpt where
+  | absent | valid | invalid
+  deriving DecidableEq, Repr
+
+/-- `cli.main()` after option parsing: `-l` rejected → `ap.error('invalid language')`; else `check_all` -/
+def main {α : Type} (lang : LangOpt) (checkFile : α → FileRun) (paths : List α) (jobs : Nat) : Proc :=
+  if lang = .invalid then ⟨[], true, 2⟩
+  else
+    let r := if paths.length ≤ 1 ∨ jobs ≤ 1 then runSeq checkFile paths else runPar checkFile paths
+    ⟨r.1, r.2, if r.2 then 1 else 0⟩
+
+/-- `check_file`: with `--unpack-deb`, a `*.deb` / `*.dsc` path is unpacked and every regular member is checked (members are
+    checked as regular files, /repo f04d144); a path with another suffix, or one the helper cannot unpack (/repo 4ff67ee),
+    raises `UnsupportedFileType` inside `check_deb`, which `check_file` catches, and is checked as a regular file -/
+inductive DebOutcome (α : Type) where
+  | notPackage                -- suffix is neither `.deb` nor `.dsc`
+  | unpackFailed              -- dpkg-deb / dpkg-source returned non-zero (CalledProcessError → UnsupportedFileType)
+  | members (ms : List α)     -- unpacked: the regular files found by `os.walk`
+
+def checkFile {α : Type} (unpackDeb : Bool) (deb : α → DebOutcome α) (regular members : α → FileRun) (p : α) : FileRun :=
+  if unpackDeb then
+    match deb p with
+    | .notPackage => regular p
+    | .unpackFailed => regular p
+    | .members ms =>
+      let r := runSeq members ms
+      ⟨r.1, r.2⟩
+  else regular p
+
 end I18n.Cli
